@@ -5,8 +5,9 @@
    modelled by the difference equation the generated code computes, with the
    shift registers d1..dk (past inputs, initialised to `zero`) and m1 (past
    output, initialised to `zero`) kept as in the generated generator
-   (that the generated code computes this equation is property C04; here it is
-   re-checked by the correspondence on every run).
+   (ProofsC04.v proves that these recursions return exactly what C04's model of the
+   generated code, C04.Model.run_filter, returns on the tools' coefficient lists;
+   the correspondence re-checks it against the real code on every run).
    Exceptions are explicit values: [Err "<exception type name>"].
    No proofs in this file. *)
 From Coq Require Import String List Bool Arith ZArith QArith Qcanon Qround.
